@@ -349,7 +349,8 @@ func (e *rpEnv) handlers(ids []Sx) []rux.HandlerFunc {
 			return sl
 		}
 	}
-	out := make([]rux.HandlerFunc, 0, len(ids))
+	// (a list built by successive appends usually has spare capacity: so have the lists that are handed out again)
+	out := make([]rux.HandlerFunc, 0, len(ids)+3*(len(ids)/2))
 	for _, id := range ids {
 		h, ok := e.hs[id.Int()]
 		if !ok {
